@@ -298,6 +298,9 @@ def _case_defined(c, part):
         reg = UnitRegistry(unit_system="vfc02sys")
     else:
         reg = UnitRegistry(unit_system=c["reg"])
+    import copy as _copy
+
+    handle = _copy.copy(reg)  # a second handle on the same table, taken before the symbol is defined / edited
     n, v, ustr = c["name"], c["value"], c["unit"]
     usc = float(Unit(ustr).base_value)  # the defining unit's own scale is judged in part A; here: the arithmetic of the definition
     dim = DEF_UNITS[ustr]
@@ -313,18 +316,21 @@ def _case_defined(c, part):
         elif c["route"] == "add+modify-float":
             reg.add(n, 7.0, libdim, prefixable=c["prefixable"])
             Unit("k" + n if c["prefixable"] else n, registry=reg)
+            Unit(n, registry=handle), Unit(n + "**2", registry=handle)
             reg.modify(n, want)
         else:
             reg.add(n, 7.0, D.time, prefixable=c["prefixable"])
+            Unit(n, registry=handle), Unit(n + "/s", registry=reg)
             reg.modify(n, unyt_quantity(v, ustr, registry=reg))
     except Exception as e:
         out.append((f"C02:definition-raises:{c['route']}:{type(e).__name__}", {"case": c, "error": str(e)[:160]}))
         return out
     part.nt((c["reg"], c["route"], n, c["prefixable"]))
     PV = {"k": 1e3, "M": 1e6, "m": 1e-3}
-    for tmpl in c["order"]:
+    for k_probe, tmpl in enumerate(c["order"]):
         probe = tmpl.format(n=n)
         part.ev()
+        reg_ = reg if k_probe % 2 == 0 else handle  # every other probe is read through the shallow copy
         # expected scale / dimension from the definition and the independent table
         if tmpl in ("kpc", "Mpc", "pc", "km", "kg", "cm", "dam"):
             es, ed, _ = R.atom(probe)
@@ -353,7 +359,7 @@ def _case_defined(c, part):
                 es, ed = base, dim
             if expect_unknown:
                 try:
-                    u = Unit(probe, registry=reg)
+                    u = Unit(probe, registry=reg_)
                     # a name like 'mq' may legitimately read as prefix+symbol of a *default* unit; only same-dimension hits are wrong
                     if R.dimvec_of(u.dimensions) == ed and abs(float(u.base_value) / es - 1) < 1e-9:
                         out.append((f"C02:prefix-accepted-on-nonprefixable-user-symbol:{c['route']}", {"case": c, "probe": probe}))
@@ -361,7 +367,7 @@ def _case_defined(c, part):
                     pass
                 continue
         try:
-            u = Unit(probe, registry=reg)
+            u = Unit(probe, registry=reg_)
         except Exception as e:
             out.append((f"C02:user-symbol-unresolvable:{c['route']}:{tmpl}", {"case": c, "probe": probe, "error": f"{type(e).__name__}: {e}"[:160]}))
             continue
